@@ -336,6 +336,17 @@ class Runs:
             shutil.copy(out, os.environ["VERIF_KEEP_PANIC_TRACE"])
         self.traces.append((out, label))
 
+    def defaults_early(self, label="defaults-early", timeout=300):
+        """The package-as-it-comes-up child alone, before anything else of the check loads the host (its spin-chase looks
+        for a wake-up lost in a window of a few hundred nanoseconds; the same scenario runs again inside panicking())."""
+        c = self.c
+        self.n += 1
+        out = c.path("trace", "%s-%d.ndjson" % (label, self.n))
+        t0 = time.time()
+        c.run_vh(["drive", "timerpanic", "-seed", c.seed, "-out", out, "-x", "only=defaults"], timeout=timeout)
+        self.phases.append((label, round(time.time() - t0, 1)))
+        self.traces.append((out, label))
+
     # ------------------------------------------------------------------ verdicts
     def validate(self, pid):
         """TLC judges every recorded trace; a rejection is reported under the clause that failed if that
